@@ -122,7 +122,9 @@ def run(ctx):
         p = exact.rand_poly(rng, dim, deg, per_direction=tensor and rng.random() < 0.5)
         # integration order: the degree of the integrand on the cell (plus the Jacobian's on non-affine cells)
         pdeg = max((max(k) for k in p.t), default=0) if tensor else p.degree()
-        if kind == "wedge":
+        if kind == "wedge" or general:
+            # on a multilinear (non-affine) cell the pulled-back integrand has, per direction, up to the TOTAL
+            # degree of p, plus the degree of the Jacobian determinant
             pdeg = p.degree()
         order = pdeg + (dim if (general or kind == "wedge") else 0)
         e = m.elem()
